@@ -52,9 +52,19 @@ def cases(seed, tier):
         cfg = {}
         if P.get('children') and prng.random() < 0.5:
             cfg = {'engine': {'start_subworkflows_via_rpc': True}}
+        outcomes = gdirect.gen_outcomes(prng, P, p_fail=0.2)
+        if i % 4 == 1:
+            # base history with an operator rerun: some root task without
+            # an error route fails
+            plain = [T['name'] for T in P['tasks'] if not T.get('workflow')
+                     and not any(e['clause'] in ('on-error', 'on-complete')
+                                 for e in T['edges'])]
+            if plain and not any(o['t'] in plain for o in outcomes):
+                n_ = prng.choice(plain)
+                outcomes.append({'t': n_, 'outcome': ['err', 'E-' + n_]})
         out.append({
             'program': P,
-            'outcomes': gdirect.gen_outcomes(prng, P, p_fail=0.2),
+            'outcomes': outcomes,
             'det': det,
             'strategy': {'name': prng.choice(['fifo', 'fifo', 'random']),
                          'seed': prng.randint(0, 10 ** 6)},
@@ -71,7 +81,7 @@ def cases(seed, tier):
             # workflow, or of a running asynchronous action through
             # on_action_update) and a later resume, so that copies are
             # also delivered to PAUSED tasks / executions
-            'pause_kind': [None, None, 'action', 'workflow'][i % 4],
+            'pause_kind': [None, 'rerun', 'action', 'workflow'][i % 4],
             'pause_at': prng.randint(2, 14),
         })
     return out
@@ -88,6 +98,12 @@ def _dup_op(index, state, copies=1, redelivered=False):
         row = (w.rec.rows['task'].get(tid) or w.rec.rows['action'].get(tid)
                or w.rec.rows['wf'].get(tid))
         state['target_state'] = row and row['state']
+        # had the original already been handled when the copy arrived?
+        state['original_handled'] = any(
+            ev['kind'] == 'UNIT_END' and
+            ev.get('label', '').startswith('rpc:' + m.brief()) and
+            not ev.get('label', '').endswith('+dup')
+            for ev in w.rec.events)
         for _ in range(copies):
             w.rec.emit('FAULT', fault='duplicate', of=m.index,
                        method=m.method, redelivered=redelivered)
@@ -103,6 +119,32 @@ def _pause_plan(case, state):
     kind = case.get('pause_kind')
     if not kind:
         return None, []
+    if kind == 'rerun':
+        # the base history contains an operator rerun of a failed task (at
+        # quiescence, i.e. at the same logical place with and without a
+        # duplicate): the start request of the rerun is one of the messages
+        # that get duplicated
+        def rerun(w):
+            if state.get('reran'):
+                return False
+            root = w.root()
+            if root is None or root['state'] != 'ERROR':
+                return False
+            failed = sorted((t for t in w.rec.rows['task'].values()
+                             if t['state'] == 'ERROR' and
+                             t['workflow_execution_id'] == root['id'] and
+                             not (t.get('state_info') or '').startswith(
+                                 'Failed by tasks')),
+                            key=lambda t: t['name'])
+            if not failed:
+                return False
+            state['reran'] = failed[0]['name']
+            state['n_msgs_before'] = len(w.messages)
+            w.outcome_rules.insert(0, {'t': failed[0]['name'],
+                                       'outcome': ['ok', 'again']})
+            w.op_rerun(failed[0]['id'], reset=True)
+            return True
+        return None, [rerun]
     k = 1 + case.get('pause_at', 3) % 4
 
     def at_boundary(w):
@@ -207,8 +249,15 @@ def run_case(case):
             sender[ev['index']] = ev.get('ulabel') or ''
     cand = [m for m in msgs if m.method in ENGINE_KINDS and
             (m.method != 'start_workflow' or m.raw.get('wf_ex_id'))]
+    if pstate.get('reran'):
+        res['monitor_evaluations']['base-with-rerun'] = \
+            res['monitor_evaluations'].get('base-with-rerun', 0) + 1
+    late = [m for m in cand
+            if m.index >= pstate.get('n_msgs_before', 10 ** 9)]
     if len(cand) > case['max_msgs']:
         cand = brng.sample(cand, case['max_msgs'])
+        # the messages sent because of the rerun are always among them
+        cand = late[:4] + [m for m in cand if m not in late[:4]]
     n = base.steps
     run = base
     for m in cand:
@@ -246,10 +295,19 @@ def run_case(case):
                 d = 'row counts %s != %s' % (_counts(base.rows),
                                              _counts(run.rows))
             if d:
+                # recorded finding: a copy of a *rerun* request that arrives
+                # after the rerun attempt it started has itself failed finds
+                # the task in ERROR again - indistinguishable from a new
+                # request - and runs it once more
+                late_rerun = bool(
+                    m.method == 'start_task' and m.raw.get('rerun') and
+                    state.get('original_handled') and
+                    state.get('target_state') in ('ERROR', 'CANCELLED'))
                 res['violations'].append({
                     'prop': 'C06', 'monitor': 'dup-equals-single',
                     'mech': 'duplicate-%s-has-effect' % m.method,
                     'duplicate': desc,
+                    'late_copy_of_rerun_after_failed_attempt': late_rerun,
                     'msg': 'a copy of %s delivered at boundary %d (target '
                            'then %s) changed the run: %s' % (
                                m.method, p, state.get('target_state'), d)})
